@@ -285,6 +285,7 @@ class Typer:
     def __init__(self, p: Program):
         self.p = p
         self._attr_cache: Dict[Tuple[str, str], Any] = {}
+        self._busy: Set[Tuple[str, int]] = set()
 
     def self_name(self, fi: FunctionInfo) -> Optional[str]:
         if fi.cls is None:
@@ -299,6 +300,16 @@ class Typer:
         return ps[0] if ps else None
 
     def type_of(self, fi: FunctionInfo, e: ast.expr, depth: int = 6) -> Any:
+        key = (fi.fq, id(e))
+        if key in self._busy:
+            return None
+        self._busy.add(key)
+        try:
+            return self._type_of(fi, e, depth)
+        finally:
+            self._busy.discard(key)
+
+    def _type_of(self, fi: FunctionInfo, e: ast.expr, depth: int = 6) -> Any:
         p = self.p
         if depth <= 0:
             return None
@@ -315,6 +326,13 @@ class Typer:
                 loc = locals_of(f)
                 if e.id in loc.b:
                     bs = loc.b[e.id]
+                    if len(bs) == 1 and bs[0].kind == "import":
+                        ent = self._local_import(f, bs[0].node, e.id)
+                        if isinstance(ent, ClassInfo):
+                            return ("type", ent)
+                        if isinstance(ent, External):
+                            return ("type", ent)
+                        return ent
                     for b in bs:
                         if b.kind == "param":
                             t = ann_type(p, f.module, b.node.annotation)
@@ -394,6 +412,24 @@ class Typer:
             ts = [t for t in ts if t is not None]
             if ts and all(t == ts[0] for t in ts):
                 return ts[0]
+        return None
+
+    def _local_import(self, f: FunctionInfo, node: ast.AST, name: str) -> Any:
+        p = self.p
+        if isinstance(node, ast.ImportFrom):
+            srcmod = p._abs_import(f.module, node.level, node.module)
+            for al in node.names:
+                if (al.asname or al.name) == name:
+                    sub = f"{srcmod}.{al.name}"
+                    if sub in p.modules:
+                        return ("module", sub)
+                    if srcmod in p.modules:
+                        return p.resolve_name(p.modules[srcmod], al.name)
+                    return External(sub)
+        if isinstance(node, ast.Import):
+            for al in node.names:
+                if (al.asname or al.name.split(".")[0]) == name:
+                    return ("module", al.name if al.asname else al.name.split(".")[0])
         return None
 
     def attr_type(self, ci: ClassInfo, attr: str) -> Any:
@@ -501,7 +537,16 @@ class Typer:
             r = p.resolve_expr(fi.module, fn)
             if isinstance(r, (ClassInfo, FunctionInfo, External)):
                 return r
+            if base is None and fn.attr in VALUE_METHODS:
+                return External("value." + fn.attr)
         return None
+
+
+VALUE_METHODS = set()
+for _t in (str, list, dict, set, tuple, bytes):
+    VALUE_METHODS.update(n for n in dir(_t) if not n.startswith("_"))
+VALUE_METHODS.update(("popleft", "appendleft", "getvalue", "write", "read", "seek", "readline"))
+VALUE_METHODS -= {"open", "serialize", "blank", "matches"}
 
 
 def call_args(call: ast.Call, callee: Optional[FunctionInfo] = None, bound: bool = False) -> Dict[str, ast.expr]:
